@@ -354,7 +354,7 @@ def leg_c17_diff(pid, tier, seed, h):
 # ambient-input leg (every in-process monitor): which environment variables does the code consult while the
 # monitor's workload runs (LD_PRELOAD shim on getenv), and does any of them change a verdict or a result?
 
-ENV_ALLOW = ("RUST_BACKTRACE", "RUST_LIB_BACKTRACE", "RUST_MIN_STACK", "RUST_LOG", "RUST_LOG_STYLE", "ENVSPY_LOG", "LD_PRELOAD", "MALLOC_", "GLIBC_TUNABLES", "LANG", "LC_", "LANGUAGE", "TZ", "NLSPATH", "LOCPATH")
+ENV_ALLOW = ("FPV_LOGGER", "RUST_BACKTRACE", "RUST_LIB_BACKTRACE", "RUST_MIN_STACK", "RUST_LOG", "RUST_LOG_STYLE", "ENVSPY_LOG", "LD_PRELOAD", "MALLOC_", "GLIBC_TUNABLES", "LANG", "LC_", "LANGUAGE", "TZ", "NLSPATH", "LOCPATH")
 ENV_VALUES = ("7", "0", "1", "true", "x", "")
 
 
